@@ -53,6 +53,9 @@ def eval_call(self: Exec, n, env):
     finally:
       self.heap = saved_heap
       self.spec_mode = saved_mode
+  if (isinstance(n.func, ast.Name) and n.func.id == 'cast' or isinstance(n.func, ast.Attribute) and n.func.attr == 'cast' and self.dotted(n.func) in ('typing.cast', 'tp.cast')) \
+      and len(n.args) == 2 and not n.keywords and not env.has('cast'):
+    return self.eval(n.args[1], env)      # typing.cast(T, x) is x; the type expression is not evaluated
   f = self.eval(n.func, env)
   args = []
   for a in n.args:
